@@ -31,10 +31,17 @@ type Logger struct {
 	Errs  int
 	last  []string
 	Keep  bool
+	// OnDebug, when set, is called for every Debugf with the format string: the library's log statements are yield
+	// points that need no instrumentation (a check may deliver a frame right there, in the middle of a library function).
+	OnDebug func(format string)
 }
 
-func (l *Logger) DebugEnabled() bool                { return false }
-func (l *Logger) Debugf(string, ...interface{})     {}
+func (l *Logger) DebugEnabled() bool { return false }
+func (l *Logger) Debugf(f string, _ ...interface{}) {
+	if l.OnDebug != nil {
+		l.OnDebug(f)
+	}
+}
 func (l *Logger) Infof(string, ...interface{})      {}
 func (l *Logger) Warnf(f string, a ...interface{})  { l.note(&l.Warns, "W ", f, a) }
 func (l *Logger) Errorf(f string, a ...interface{}) { l.note(&l.Errs, "E ", f, a) }
